@@ -72,8 +72,10 @@ func (r *run) Events() []flows.Event                { return r.events }
 
 func (r *run) Results() flows.Results { return r.results }
 func (r *run) SaveResult(result *flows.Result) (*flows.Result, bool) {
-	// truncate value if necessary
+	// truncate value if necessary.. and the input as well, because a router in a loop can use its own previous
+	// results as its operand, and an input that can contain the previous input grows exponentially
 	result.Value = stringsx.Truncate(result.Value, r.session.Engine().Options().MaxResultChars)
+	result.Input = stringsx.Truncate(result.Input, r.session.Engine().Options().MaxResultChars)
 
 	r.modifiedOn = dates.Now()
 	r.legacyExtra.addResult(result)
